@@ -326,6 +326,8 @@ func (j JSONNode) getNode(nn interface{}) (Node, error) {
 		n = &ProgramNode{}
 	case "comment":
 		n = &CommentNode{}
+	default:
+		return nil, fmt.Errorf("unknown node type %q", typ)
 	}
 	err = n.unmarshal(node)
 	return n, err
